@@ -276,6 +276,10 @@ func buildC04(tier string) *core.Plan {
 				map[string]any{"top": n, "a": map[string]any{"x": m, "b": map[string]any{"y": 1}}, "l": []any{map[string]any{"k": n}, map[string]any{"k": m}}}},
 			tmpl{"yaml-crlf-line-ends", "yaml", fmt.Sprintf("a: %s\r\nb: x\r\nl:\r\n  - 1\r\n  - y\r\n", ns),
 				map[string]any{"a": n, "b": "x", "l": []any{1, "y"}}},
+			tmpl{"yaml-crlf-stream", "yaml", fmt.Sprintf("a: %s\r\n---\r\nb: %s\r\n---\r\nc: x\r\n", ns, ms),
+				[]any{map[string]any{"a": n}, map[string]any{"b": m}, map[string]any{"c": "x"}}},
+			tmpl{"yaml-separator-with-trailing-blanks", "yaml", fmt.Sprintf("a: %s\n---  \nb: %s\n---\t\nc: x\n", ns, ms),
+				[]any{map[string]any{"a": n}, map[string]any{"b": m}, map[string]any{"c": "x"}}},
 			tmpl{"yaml-no-trailing-newline", "yaml", fmt.Sprintf("a: %s\nb: {c: %s}", ns, ms),
 				map[string]any{"a": n, "b": map[string]any{"c": m}}},
 			tmpl{"yaml-bom", "yaml", fmt.Sprintf("\ufeffa: %s\nb: x\n", ns),
